@@ -74,7 +74,7 @@ for _i, (_style, _pos, _mode, _doc) in enumerate(_ALL):
     if not _q and _mode != "ins":
         continue
     _np = hole_is_name(_doc, _pos, _mode)
-    ob("C14", "skel.%s.%s%03d" % (_style, _mode, _pos), {"c": PR if _np else CP}, tier="quick" if _q else "thorough", T=150, funcs=FUNCS,
+    ob("C14", "skel.%s.%s%03d" % (_style, _mode, _pos), {"c": PR if _np else CP}, tier="quick" if _q else "thorough", T=300, funcs=FUNCS,
        assumes=[ADHOC_SHIMS_DOC],
        bound="%s skeleton (%d chars) with %s %s at offset %d" % (
            _style, len(_doc), "any printable ASCII character (name position: dict-key insertion realises, so the range is finite and solver-enumerated)" if _np else "ANY code point",
